@@ -40,6 +40,10 @@ POSITIONS = {
     'after-loop': 'def f(x):\n    y = 0\n    while x:\n        x -= 1\n{S}\n    return y\n',
     'nested-2': 'def f(x):\n    y = 0\n    for i in range(x):\n        if i:\n{SSS}\n    return y\n',
     'last': 'def f(x):\n    y = 0\n{S}\n',
+    'after-return': 'def f(x):\n    y = 0\n    if x:\n        return y\n{SS}\n    return y\n',
+    'after-break': 'def f(x):\n    y = 0\n    while x:\n        x -= 1\n        break\n{SS}\n    return y\n',
+    'after-continue': 'def f(x):\n    y = 0\n    for i in range(x):\n        continue\n{SS}\n    return y\n',
+    'after-top-return': 'def f(x):\n    y = 0\n    return y\n{S}\n',
 }
 NON_FUNCTIONS = {
     'assignment': 'x = 1\n',
